@@ -1,7 +1,7 @@
 (* Witnesses for the known findings of C01 (known_findings/C01.json): the full statement is false on these inputs.
    Each is the negation of the conclusion of a C01 theorem on a concrete typed input; computed by vm_compute. *)
 Require Import PonyV.Base.PyBase PonyV.Model.C01Expr PonyV.Model.C01Sql PonyV.Model.C01Translate PonyV.Model.C01Safe
-               PonyV.Model.C01Eqb PonyV.Model.C01Query PonyV.Model.C01Join PonyV.Model.C01Coll PonyV.Model.C01Aggr PonyV.Model.C01Len.
+               PonyV.Model.C01Eqb PonyV.Model.C01Query PonyV.Model.C01Join.
 
 Definition fa := mkattr 1 TInt true.
 Definition fb := mkattr 2 TInt true.
@@ -101,32 +101,3 @@ Theorem C01_refuted_pk_of_none_reference_is_marked_not_nullable :
       sql_join_rows d JLeft 0 false conds q (fun _ => PNone) jdb1 = [].
 Proof. cbv zeta. repeat split; try reflexivity. intros d H; destruct d; try discriminate H; do 2 eexists; repeat split; reflexivity. Qed.
 Print Assumptions C01_refuted_pk_of_none_reference_is_marked_not_nullable.
-
-(* ------------------------------------------------------------------------------------------- aggregates *)
-(* select(sum(p.f) for p in P) over three rows with f = True: the database returns 3, but the result type of the aggregate is the
-   argument's (bool), so the bool converter turns it into True; Python's sum gives 3 *)
-Theorem C01_refuted_sum_of_booleans_is_returned_as_bool :
-  let f := mkattr 6 TBool true in let g := GAgg FSum false (EAttr f) in
-  let r (id : Z) := mkenv (fun i => match i with 0%nat => PInt id | 6%nat => PBool true | _ => PNone end) (fun _ => PNone) in
-  let table := [r 1; r 2; r 3] in
-  py_aggr g None table = AVal (PInt 3) /\ aggr_safe DSqlite g = false /\
-  exists qa, tr_aggr DSqlite 0%nat g = Some qa /\ sql_aggr DSqlite qa [] table = IntV 3 /\
-             deca_g g (sql_aggr DSqlite qa [] table) = AVal (PBool true).
-Proof. cbv zeta. repeat split; try reflexivity. eexists. repeat split; reflexivity. Qed.
-Print Assumptions C01_refuted_sum_of_booleans_is_returned_as_bool.
-
-(* ------------------------------------------------------------------------------------------- len(collection) *)
-(* select(g.id for g in G if len(g.members)): the count is tested for truth by NumericMixin.nonzero, whose result does not carry the
-   `aggregated` mark, so the condition COUNT(DISTINCT p.id) <> 0 is put into WHERE instead of HAVING - a statement every database
-   rejects ("misuse of aggregate"), while Python keeps the groups that have members; `len(g.members) > 0` is translated fine *)
-Theorem C01_refuted_aggregate_truth_test_lands_in_where :
-  let cnt := mkattr 30 TInt false in
-  let mk (id : Z) (grp : pyv) : C01Join.row := row_of [(0, PInt id); (8, grp); (3, PInt 0); (5, PStr [97%Z]); (7, PBool true)]%nat in
-  let db := mkjdb [mk 1 (PInt 1)] [row_of [(0, PInt 1); (1, PInt 0)]%nat; row_of [(0, PInt 2); (1, PInt 0)]%nat] [] in
-  py_len_rows (fun _ => PNone) db [] [EAttr cnt] (EAttr (mkattr 10 TInt false)) = [PInt 1] /\
-  forall d, modelled d = true ->
-    tr_len_raw d [] [EAttr cnt] = Some ([QBin QNe (QCol 30) (QVal (QLInt 0))], []) /\ tr_len d [] [EAttr cnt] = None /\
-    exists w h, tr_len d [] [ECmp CGt (EAttr cnt) (EInt 0)] = Some (sub_join, w, h) /\
-                sql_len_rows d (fun _ => PNone) db w h (QCol 10) = [IntV 1].
-Proof. cbv zeta. split; [reflexivity|]. intros d H; destruct d; try discriminate H; repeat split; try reflexivity; do 2 eexists; split; reflexivity. Qed.
-Print Assumptions C01_refuted_aggregate_truth_test_lands_in_where.
